@@ -28,6 +28,19 @@ impl C16 {
                     h.out.count("probes_sending_to_the_proxy_itself");
                 }
             }
+            if h.rng.chance(1, 10) {
+                // a call the proxy is asked to make to ITSELF (administration or a nested relay)
+                let body: &[u8] = match h.rng.below(6) {
+                    0 => b"{\"execute\":{\"msgs\":[]}}",
+                    1 => b"{\"execute\":{\"msgs\":[{\"bank\":{\"send\":{\"to_address\":\"x\",\"amount\":[]}}}]}}",
+                    2 => b"{\"freeze\":{}}",
+                    3 => b"{\"update_admins\":{\"admins\":[]}}",
+                    4 => b"{}",
+                    _ => b"{\"increase_allowance\":{\"spender\":\"x\",\"amount\":{\"denom\":\"uatom\",\"amount\":\"1\"}}}",
+                };
+                msg = cosmwasm_std::WasmMsg::Execute { contract_addr: p.w.contract.to_string(), msg: cosmwasm_std::Binary::from(body.to_vec()), funds: vec![] }.into();
+                h.out.count("probes_calling_the_proxy_itself");
+            }
             let q = p.can_execute(&sender, &msg);
             h.out.evaluations += 1;
             let q = match q {
@@ -111,6 +124,7 @@ impl Monitor for C16 {
     }
     fn mandatory(&self) -> Vec<&'static str> {
         vec![
+            "probes_calling_the_proxy_itself",
             "can_execute_true",
             "can_execute_false",
             "subkey_true",
